@@ -5005,16 +5005,22 @@ static PyObject *
 _trait_setstate(trait_object *trait, PyObject *args)
 {
     PyObject *ignore;
+    PyObject *py_post_setattr, *py_validate, *default_value, *delegate_name,
+        *delegate_prefix, *handler, *obj_dict;
+    int default_value_type;
+    unsigned int flags;
     int getattr_index, setattr_index, post_setattr_index, validate_index,
         delegate_attr_name_index;
 
+    /* The state is parsed into locals (borrowed references) and the trait is
+       only updated once the whole state is known to be valid: a state that
+       is rejected leaves the trait as it was. */
     if (!PyArg_ParseTuple(
             args, "(iiiOiOiOIOOiOOO)", &getattr_index, &setattr_index,
-            &post_setattr_index, &trait->py_post_setattr, &validate_index,
-            &trait->py_validate, &trait->default_value_type,
-            &trait->default_value, &trait->flags, &trait->delegate_name,
-            &trait->delegate_prefix, &delegate_attr_name_index, &ignore,
-            &trait->handler, &trait->obj_dict)) {
+            &post_setattr_index, &py_post_setattr, &validate_index,
+            &py_validate, &default_value_type, &default_value, &flags,
+            &delegate_name, &delegate_prefix, &delegate_attr_name_index,
+            &ignore, &handler, &obj_dict)) {
         return NULL;
     }
 
@@ -5038,27 +5044,10 @@ _trait_setstate(trait_object *trait, PyObject *args)
            NULL entry that terminates their tables is not a valid choice. */
         || (getattr_handlers[getattr_index] == NULL)
         || (setattr_handlers[setattr_index] == NULL)) {
-        /* The object fields were filled with borrowed references by
-           PyArg_ParseTuple: own them so that deallocation stays balanced. */
-        Py_INCREF(trait->py_post_setattr);
-        Py_INCREF(trait->py_validate);
-        Py_INCREF(trait->default_value);
-        Py_INCREF(trait->delegate_name);
-        Py_INCREF(trait->delegate_prefix);
-        Py_INCREF(trait->handler);
-        Py_INCREF(trait->obj_dict);
         PyErr_SetString(
             PyExc_ValueError, "Invalid trait state: handler index out of range.");
         return NULL;
     }
-
-    trait->getattr = getattr_handlers[getattr_index];
-    trait->setattr = setattr_handlers[setattr_index];
-    trait->post_setattr =
-        (trait_post_setattr)setattr_property_handlers[post_setattr_index];
-    trait->validate = validate_handlers[validate_index];
-    trait->delegate_attr_name =
-        delegate_attr_name_handlers[delegate_attr_name_index];
 
     /*
        Backwards compatibility hack for old pickles. Versions of Traits
@@ -5068,28 +5057,49 @@ _trait_setstate(trait_object *trait, PyObject *args)
        sure that we don't need to handle pickles generated by Traits
        versions < 6.0.
     */
-    if (PyLong_Check(trait->py_validate)) {
+    if (PyLong_Check(py_validate)) {
         /* PyObject_GetAttrString returns a new reference. */
-        trait->py_validate =
-            PyObject_GetAttrString(trait->handler, "validate");
+        py_validate = PyObject_GetAttrString(handler, "validate");
+        if (py_validate == NULL) {
+            return NULL;
+        }
     }
     else {
-        Py_INCREF(trait->py_validate);
+        Py_INCREF(py_validate);
     }
-    if (PyLong_Check(trait->py_post_setattr)) {
-        trait->py_post_setattr =
-            PyObject_GetAttrString(trait->handler, "post_setattr");
+    if (PyLong_Check(py_post_setattr)) {
+        py_post_setattr = PyObject_GetAttrString(handler, "post_setattr");
+        if (py_post_setattr == NULL) {
+            Py_DECREF(py_validate);
+            return NULL;
+        }
     }
     else {
-        Py_INCREF(trait->py_post_setattr);
+        Py_INCREF(py_post_setattr);
     }
     /* End backwards compatibility hack */
 
-    Py_INCREF(trait->default_value);
-    Py_INCREF(trait->delegate_name);
-    Py_INCREF(trait->delegate_prefix);
-    Py_INCREF(trait->handler);
-    Py_INCREF(trait->obj_dict);
+    trait->getattr = getattr_handlers[getattr_index];
+    trait->setattr = setattr_handlers[setattr_index];
+    trait->post_setattr =
+        (trait_post_setattr)setattr_property_handlers[post_setattr_index];
+    trait->validate = validate_handlers[validate_index];
+    trait->delegate_attr_name =
+        delegate_attr_name_handlers[delegate_attr_name_index];
+    trait->default_value_type = default_value_type;
+    trait->flags = flags;
+
+    /* 'set_value' takes its own reference to the new content and releases
+       the previous content of the field. */
+    set_value(&trait->py_validate, py_validate);
+    Py_DECREF(py_validate);
+    set_value(&trait->py_post_setattr, py_post_setattr);
+    Py_DECREF(py_post_setattr);
+    set_value(&trait->default_value, default_value);
+    set_value(&trait->delegate_name, delegate_name);
+    set_value(&trait->delegate_prefix, delegate_prefix);
+    set_value(&trait->handler, handler);
+    set_value(&trait->obj_dict, obj_dict);
 
     Py_INCREF(Py_None);
     return Py_None;
